@@ -193,4 +193,74 @@ def c18(q):
                  ["op:assign:done", "op:assign:refused", "failed-assign-left-unchanged"])
 
 
-PLANS = {"C01": c01, "C02": c02, "C03": c03, "C04": c04, "C05": c05, "C06": c06, "C11": c11, "C12": c12, "C13": c13, "C14": c14, "C18": c18, "C19": c19, "C15": c15, "C17": c17, "C20": c20}
+def c07(q):
+    return {
+        "level": "exploration",
+        "rule": ("cases = (message type out of ~25 zoo shapes flagged as messages, sequence of 0..8 (quick) / 0..64 messages, max_msg_len in {largest, +1, x2, x4+3}, write chunk script, read chunk script, "
+                 "public io() constructors or monitored IoBuffer wrapper). 'compose' sub-workload: for small streams (<= 12 bytes) EVERY composition of the stream into read chunks / write chunks (2^(n-1)) is run. "
+                 "'threaded': two real threads over a bounded Mutex+Condvar pipe. Oracle: every send Ok, sink == concatenation of reference images (decoded), received sequence == sent sequence then Closed, "
+                 "no panic, window start aligned, skip(count) <= occupied. Distinct = distinct (shape, chunk scripts, stream length); every case is non-trivial (bytes cross the pipe)."),
+        "exhaustive_note": "chunk compositions are exhaustive for each small stream of the 'compose' sub-workload",
+        "gates": ["mode:blocking", "mode:threaded", "compose-cases", "messages-received", "window-observations"],
+        "jobs": [
+            {"sub": "random", "cfgs": ["debug", "release"], "cases": 40_000 if q else 1_000_000, "ms": 30_000 if q else 300_000},
+            {"sub": "compose", "cfgs": ["debug"], "cases": 30_000 if q else 600_000, "ms": 30_000 if q else 300_000},
+            {"sub": "threaded", "cfgs": ["debug"], "cases": 200 if q else 5_000, "ms": 20_000 if q else 120_000, "shards": 4},
+            {"sub": "random", "cfgs": ["miri"], "cases": 150 if q else 5_000, "ms": 40_000 if q else 600_000, "wall": 300 if q else 1500},
+            {"sub": "threaded", "cfgs": ["miri"], "cases": 3 if q else 40, "ms": 40_000 if q else 300_000, "shards": 2, "wall": 300 if q else 900},
+        ],
+    }
+
+
+def c08(q):
+    return {
+        "level": "exploration",
+        "rule": ("as C07 over a bounded in-memory async duplex (capacity 1..1000) driven by a manual executor: the schedule (which task is polled next) and the placement of injected, self-waking Poll::Pending "
+                 "results in poll_write / poll_read / poll_flush are part of the case; half of the cases run wake-driven (a task is polled only after its waker fired: a stall with an incomplete stream is a lost wake-up). "
+                 "'compose' sub-workload: every chunk composition of small streams. Additional oracle: polls bounded, a Ready poll_flush follows the last accepted byte of every completed send. "
+                 "Distinct = distinct (shape, chunk scripts, capacity, schedule, Pending script)."),
+        "gates": ["mode:async", "compose-cases", "injected-pendings", "flush-checked-sends", "messages-received"],
+        "jobs": [
+            {"sub": "random", "cfgs": ["debug", "release"], "cases": 25_000 if q else 600_000, "ms": 30_000 if q else 300_000},
+            {"sub": "compose", "cfgs": ["debug"], "cases": 30_000 if q else 600_000, "ms": 30_000 if q else 300_000},
+            {"sub": "random", "cfgs": ["miri"], "cases": 100 if q else 4_000, "ms": 40_000 if q else 600_000, "wall": 300 if q else 1500},
+        ],
+    }
+
+
+def c09(q):
+    return {
+        "level": "fault_enumeration",
+        "rule": ("'enum' sub-workload: for a message sequence (<= 4 messages, <= 47 stream bytes) EVERY stream byte position 0..=len (message boundaries included) x 8 fault kinds (Interrupted, WouldBlock, BrokenPipe, "
+                 "ConnectionReset, TimedOut, Other, UnexpectedEof, Ok(0)) x {one-shot, persistent} x {write side, read side} x {blocking, async} is injected. 'random': longer sequences, random chunk/Pending scripts. "
+                 "Oracle: call-count breaker never trips, a persistently failing sink makes the pending send return within 2 write calls, sink == whole messages of the Ok sends + at most one partial message at the very end, "
+                 "a send reported Ok is entirely in the sink, after a read fault the handed-out messages are a prefix of the sent ones and (transient error + retry) all of them. Using a poisoned sender is a documented refusal. "
+                 "Distinct = distinct (shape, messages, fault position/kind/persistence/side, scripts); non-trivial = the fault was actually injected (fault-not-reached counted separately)."),
+        "exhaustive_note": "fault points are enumerated completely per message sequence in the 'enum' sub-workload",
+        "gates": ["enum-cases", "fault:write-persistent", "fault:write-transient", "fault:read-transient", "fault:read-persistent", "fault:read-eof", "poisoned-refusal", "read-fault-recovered-or-reported"],
+        "jobs": [
+            {"sub": "enum", "cfgs": ["debug", "release"], "cases": 40_000 if q else 600_000, "ms": 30_000 if q else 300_000},
+            {"sub": "random", "cfgs": ["debug"], "cases": 25_000 if q else 600_000, "ms": 30_000 if q else 300_000},
+            {"sub": "enum", "cfgs": ["miri"], "cases": 150 if q else 4_000, "ms": 40_000 if q else 600_000, "wall": 300 if q else 1500},
+        ],
+    }
+
+
+def c10(q):
+    return {
+        "level": "exploration",
+        "rule": ("cases = (message type, hostile byte stream = concatenation of valid messages, header-mutated / truncated / random inputs of the C01 generator and random bytes, max_msg_len, read chunk script, blocking or async "
+                 "with Pending script, monitored or public constructor). Oracle: every recv ends as message / Parse / Read / Closed (no panic, breaker, CPU overrun); each outcome must agree with the three-valued reference decoder "
+                 "applied to the stream at the current offset (content error -> Parse, short with a full buffer -> Read(OutOfMemory), short at EOF -> Closed); a handed-out message equals the reference decoding, is valid, aligned, "
+                 "consumes exactly its reference extent; skips never exceed what was received. Distinct = distinct (shape, stream bytes, scripts)."),
+        "gates": ["c10:expect:msg", "c10:expect:parse", "c10:expect:read-oom", "c10:expect:closed", "mode:async", "mode:blocking"],
+        "jobs": [
+            {"sub": "random", "cfgs": ["debug", "release"], "cases": 40_000 if q else 1_000_000, "ms": 30_000 if q else 300_000},
+            {"sub": "random", "cfgs": ["miri"], "cases": 150 if q else 5_000, "ms": 40_000 if q else 600_000, "wall": 300 if q else 1500},
+        ] + ([] if q else [
+            {"sub": "random", "cfgs": ["asan"], "cases": 300_000, "ms": 200_000},
+        ]),
+    }
+
+
+PLANS = {"C01": c01, "C02": c02, "C03": c03, "C04": c04, "C05": c05, "C06": c06, "C07": c07, "C08": c08, "C09": c09, "C10": c10, "C11": c11, "C12": c12, "C13": c13, "C14": c14, "C18": c18, "C19": c19, "C15": c15, "C17": c17, "C20": c20}
